@@ -534,7 +534,8 @@ impl StringGenerator {
                     if self.options.use_cursor_forward && line[x].ch == ' ' && line[x].cur_state.bg_idx == 0 && !line[x].cur_state.is_blink {
                         let fmt = &format!("\x1B[{}C", rle + 1);
                         let output = fmt.as_bytes();
-                        if output.len() <= rle {
+                        // moving the cursor does not wrap to the next line like printing the last column does
+                        if output.len() <= rle && x + rle + 1 < layer.get_width() as usize {
                             self.push_result(&mut result);
                             result.extend_from_slice(output);
                             self.push_result(&mut result);
